@@ -1311,7 +1311,15 @@ impl DcpsDomainParticipant {
                                         );
                                     }
                                 }
-                            } else {
+                            } else if writer_associated_topic.add_inconsistent_endpoint(
+                                InstanceHandle::new(
+                                    discovered_reader_data.dds_subscription_data.key().value,
+                                ),
+                                discovered_reader_data
+                                    .dds_subscription_data
+                                    .type_information
+                                    .as_ref(),
+                            ) {
                                 writer_associated_topic
                                     .inconsistent_topic_status
                                     .total_count += 1;
@@ -1896,7 +1904,15 @@ impl DcpsDomainParticipant {
                                         );
                                     }
                                 }
-                            } else {
+                            } else if reader_associated_topic.add_inconsistent_endpoint(
+                                InstanceHandle::new(
+                                    discovered_writer_data.dds_publication_data.key().value,
+                                ),
+                                discovered_writer_data
+                                    .dds_publication_data
+                                    .type_information
+                                    .as_ref(),
+                            ) {
                                 reader_associated_topic
                                     .inconsistent_topic_status
                                     .total_count += 1;
@@ -2380,7 +2396,10 @@ impl DcpsDomainParticipant {
                             for type_identifier_pair in &result.types {
                                 for topic in &mut self.domain_participant.locally_created_topic_list
                                 {
-                                    if let Some((_, discovered_type_state)) = topic
+                                    if let Some((
+                                        resolved_type_information,
+                                        discovered_type_state,
+                                    )) = topic
                                         .discovered_type_representation
                                         .iter_mut()
                                         .filter(|(_, x)| {
@@ -2398,6 +2417,8 @@ impl DcpsDomainParticipant {
                                             DiscoveredTypeRepresentationState::Discovered(
                                                 type_identifier_pair.type_object.clone(),
                                             );
+                                        let resolved_type_information =
+                                            resolved_type_information.clone();
                                         type_lookup_reply_received = true;
 
                                         let local_has_readers = self
@@ -2529,6 +2550,10 @@ impl DcpsDomainParticipant {
                                         };
 
                                         if !is_type_assignable {
+                                            // The endpoints using this type are not reported a second time
+                                            topic
+                                                .inconsistent_type_list
+                                                .push(resolved_type_information);
                                             topic.inconsistent_topic_status.total_count += 1;
                                             topic.inconsistent_topic_status.total_count_change += 1;
                                             let participant = DomainParticipantAsync::new(
